@@ -325,29 +325,66 @@ def s17_2(ctx, P):
         ctx.check(P + ':S17-2:max-partial-const', 'R-table', 'MAX_PARTIAL_LEN == 2^30', c is not None and c['v'] == 2 ** 30, table=c and c['v'])
 
 
+def _param_place(b):
+    def pred(kind, v):
+        return kind == 'place' and 'l' in v and not v['pr'] and 1 <= v['l'] <= b.r['nargs']
+    return pred
+
+
+def chunk_size_validation(ctx, P, b, nm, stored):
+    """The value that is stored as chunk size (`stored`: parameter local) is the value compared with 512 and tested for being
+    a power of two, both rejecting, on every path to Ok."""
+    from rules.common import single_defs, resolve_value
+    defs = single_defs(b)
+    oks = ok_exit_blocks(b)
+    can = b.can_reach(set(oks))
+    dg = []
+    for g, op, side in direct_cmp_switches(b, _param_place(b), lambda c: c == 512):
+        kind, v = resolve_value(b, b.blocks[g]['t']['o'], defs)
+        if kind == 'rv' and v['k'] == 'un':
+            kind, v = resolve_value(b, v['o'][0], defs)
+        pl = resolve_value(b, v['o'][side], defs)[1]
+        if pl['l'] in stored and any(j not in can for j, _ in b.succ(g)):
+            dg.append(g)
+    ok, wit = must_pass(b, oks, dg)
+    ctx.check(P + ':S17-3:%s:chunk-ge-512' % nm, 'R-dom', '%s: the chunk size that is kept is compared with 512 (rejecting) on every path to Ok' % nm, ok and bool(dg), function=b.path,
+              guards=[site(b, g) for g in dg], stored_param=sorted(stored),
+              missing=None if dg else 'no rejecting comparison of the stored parameter with 512')
+    pws = [i for i, t in b.calls(r'is_power_of_two$|count_ones$') if resolve_value(b, t['args'][0], defs)[0] == 'place'
+           and resolve_value(b, t['args'][0], defs)[1].get('l') in stored]
+    pw = [g for g, _ in guard_switches(b, oks, [r'cs:.*(is_power_of_two|count_ones)#(%s)$' % '|'.join(str(i) for i in pws)])] if pws else []
+    ok2, _ = must_pass(b, oks, pw)
+    ctx.check(P + ':S17-3:%s:chunk-power-of-two' % nm, 'R-dom', '%s: the chunk size that is kept is tested for being a power of two (rejecting) on every path to Ok' % nm,
+              ok2 and bool(pw), function=b.path, guards=[site(b, g) for g in pw])
+
+
 def s17_3(ctx, P):
+    from rules.common import single_defs, resolve_value
     for path, nm in (('packet::literal_data::LiteralDataPartialGenerator::<R>::new', 'literal'),
                      ('packet::compressed_data::CompressedDataPartialGenerator::<R>::new', 'compressed')):
         b = ctx.body(path)
         if not b:
             continue
-        oks = ok_exit_blocks(b)
-        dg = [g for g, op, _ in direct_cmp_switches(b, lambda k, v: True, lambda c: c == 512)]
-        can = b.can_reach(set(oks))
-        dg = [g for g in dg if any(j not in can for j, _ in b.succ(g))]
-        ok, wit = must_pass(b, oks, dg)
-        ctx.check(P + ':S17-3:%s:chunk-ge-512' % nm, 'R-dom', '%s partial generator rejects chunk sizes below 512' % nm, ok and bool(dg), function=b.path,
-                  guards=[site(b, g) for g in dg])
-        pw = guard_switches(b, oks, [r'call:.*is_power_of_two$|call:.*count_ones$'])
-        ok2, _ = must_pass(b, oks, [g for g, _ in pw])
-        ctx.check(P + ':S17-3:%s:chunk-power-of-two' % nm, 'R-dom', '%s partial generator rejects chunk sizes that are not a power of two' % nm, ok2 and bool(pw), function=b.path)
+        defs = single_defs(b)
+        stored = set()
+        for i, k, s_ in b.constructs(r'PartialGenerator$'):
+            for o in s_['r']['o']:
+                kind, v = resolve_value(b, o, defs)
+                if kind == 'place' and not v['pr'] and 1 <= v['l'] <= b.r['nargs'] and b.r['locals'][v['l']]['ty'] == 'u32':
+                    stored.add(v['l'])
+        ctx.check(P + ':S17-3:%s:chunk-stored' % nm, 'origin', '%s generator keeps a u32 parameter as its chunk size' % nm, len(stored) == 1, function=b.path)
+        chunk_size_validation(ctx, P, b, nm, stored)
     cands = [p for p in ctx.f.bodies if p.endswith('::partial_chunk_size') and 'builder' in p]
     for p in cands:
         b = ctx.body(p)
-        oks = ok_exit_blocks(b)
-        dg = [g for g, op, _ in direct_cmp_switches(b, lambda k, v: True, lambda c: c == 512)]
-        pw = guard_switches(b, oks, [r'call:.*is_power_of_two$|call:.*count_ones$'])
-        ctx.check(P + ':S17-3:builder:chunk-size-validated', 'R-dom', 'MessageBuilder::partial_chunk_size validates >= 512 and power of two', bool(dg) and bool(pw), function=b.path)
+        defs = single_defs(b)
+        stored = set()
+        for i, k, s_ in b.stmts(lambda s: s['d']['pr'] and s['d']['pr'][-1].endswith('.partial_chunk_size') and s['r']['k'] == 'use'):
+            kind, v = resolve_value(b, s_['r']['o'][0], defs)
+            if kind == 'place' and not v['pr'] and 1 <= v['l'] <= b.r['nargs']:
+                stored.add(v['l'])
+        ctx.check(P + ':S17-3:builder:chunk-stored', 'origin', 'MessageBuilder::partial_chunk_size stores its parameter', len(stored) == 1, function=b.path)
+        chunk_size_validation(ctx, P, b, 'builder', stored)
     ctx.floor(P + ':S17-3:builder:floor', 'MessageBuilder::partial_chunk_size', len(cands), 1)
     # every PacketLength::Partial(x) constructed by the writers derives from the validated chunk size
     n = 0
